@@ -326,6 +326,9 @@ func (fr *Frame) callWithSpec(callee *ssa.Function, spec *FuncSpec, args []Val, 
 		short = short[i+1:]
 	}
 	for i, r := range spec.Requires {
+		if fx.eng.onlySafe && r.Label != "" && !strings.HasPrefix(r.Label, "safe") {
+			continue // a precondition of the functional layer only
+		}
 		t := env.eval(r.E).asBool()
 		fx.oblige("requires", fmt.Sprintf("%s/call/%s/requires/%s#", fr.path, short, clauseName(r, i)), st, t, pos, r.Src)
 	}
